@@ -85,6 +85,15 @@ static void campaign() {
     rcx::run("pairing_under_pipelining", vc::mix(A.seed * 197 + A.shard), cases, 60, [&]() -> std::optional<rcx::Fail> {
         hg::Exchange x = hg::gen_exchange(o);
         Case c; c.pers = rcx::range(0, 9); c.auto_destroy = rcx::coin();
+        // "Expect: 100-continue" answered with a final 4xx: the client withholds the announced body and goes on with its next
+        // request (RFC 7231 5.1.1). Such a pair adds a constraint to the interleaving: nothing of request j+1 before response j.
+        std::vector<bool> withheld(x.req.size(), false);
+        { std::vector<size_t> final_of; for (size_t k = 0; k < x.res.size(); k++) if (!x.res[k].interim) final_of.push_back(k);
+          for (size_t j = 0; j + 1 < x.req.size() && j < final_of.size(); j++) { hg::Msg &q = x.req[j]; if (q.framing != hg::F_CL || q.body.empty() || q.find("Expect") || !rcx::chance(1, 3)) continue;
+            bool has_interim = false; for (size_t k = j == 0 ? 0 : final_of[j - 1] + 1; k < final_of[j]; k++) if (x.res[k].interim) has_interim = true; if (has_interim) continue;
+            hg::Hdr h; h.name = "Expect"; h.lines.push_back(" 100-continue"); q.headers.push_back(h); q.body.clear(); // Content-Length stays: the body is announced, never sent
+            static const char *ST[] = {"400", "401", "403", "404", "413", "417"}; hg::Msg &fr = x.res[final_of[j]]; fr.status = ST[rcx::range(0, 5)]; withheld[j] = true;
+            if (fr.framing == hg::F_NONE) { fr.framing = hg::F_CL; fr.body.clear(); hg::Hdr cl; cl.name = "Content-Length"; cl.lines.push_back(" 0"); fr.headers.push_back(cl); } } } // (a bodyless 204/304 became a 4xx: give it explicit framing)
         // tag the responses in a header, record message starts
         { size_t p = 0; for (auto &m : x.req) { c.rq_starts.push_back(p); p += m.wire().size(); } }
         { size_t p = 0, pair = 0; bool at_pair_start = true; for (auto &m : x.res) { if (at_pair_start) { c.rs_starts.push_back(p); at_pair_start = false; } if (!m.interim) { hg::Hdr h; h.name = "X-Pair"; h.lines.push_back(" s" + std::to_string(pair) + "z"); m.headers.insert(m.headers.begin(), h); pair++; at_pair_start = true; } p += m.wire().size(); } }
@@ -99,6 +108,7 @@ static void campaign() {
         std::vector<size_t> forced; for (size_t i = 0; i + 1 < N; i++) forced.push_back(rs_pair_end[i]); { size_t q = 0; for (auto &m : x.res) { q += m.wire().size(); if (m.interim) forced.push_back(q); } }
         // bias: cut the request stream at head/body joints (a request whose head is in but whose body is not is the interesting state)
         std::vector<size_t> qforced; for (auto &sp : hg::Exchange::spans(x.req)) if (sp.head_end < sp.end && rcx::coin()) qforced.push_back(sp.head_end);
+        for (size_t j = 0; j + 1 < N; j++) if (withheld[j]) qforced.push_back(rq_end[j]);
         std::vector<size_t> qc = cuts_for(c.rq.size(), qforced), sc = cuts_for(c.rs.size(), forced);
         std::vector<size_t> qlens, slens; { size_t prev = 0; for (size_t x2 : qc) { qlens.push_back(x2 - prev); prev = x2; } qlens.push_back(c.rq.size() - prev); prev = 0; for (size_t x2 : sc) { slens.push_back(x2 - prev); prev = x2; } slens.push_back(c.rs.size() - prev); }
         // legal interleaving: the response chunk [soff, soff+n) lies within pair i's responses; legal iff request i is fully offered
@@ -108,6 +118,7 @@ static void campaign() {
             bool can_res = false;
             if (si < slens.size()) { size_t pair = 0; while (pair < N && rs_pair_end[pair] <= soff) pair++; can_res = pair < N && qoff >= rq_end[pair]; }
             bool can_req = qi < qlens.size();
+            if (can_req) for (size_t j = 0; j + 1 < N; j++) if (withheld[j] && qoff >= rq_end[j] && soff < rs_pair_end[j]) can_req = false; // the client waits for the answer to its Expect
             bool pick_res;
             if (can_res && can_req) pick_res = style == 1 ? false : style == 3 ? true : style == 0 ? true : rcx::coin(); else pick_res = can_res;
             if (!can_res && !can_req) break; // cannot happen: a pending response always becomes legal once all requests are offered
@@ -116,7 +127,7 @@ static void campaign() {
         }
         std::string text = case_text(c); vc::set_current_case(text);
         bool out2 = false; auto r = run_case(c, &out2);
-        if (!rcx::shrinking()) { g_stats.evaluations++; g_stats.cls("histories"); g_stats.cls(std::string("interleaving_style_") + (style == 0 ? "response_first_when_legal" : style == 1 ? "requests_first" : style == 2 ? "random" : "earliest_response")); if (c.auto_destroy) g_stats.cls("auto_destroy"); if (N >= 3 && out2) { g_stats.nt(vc::fnv1a(text)); g_stats.cls("n_ge_3_with_outstanding_requests"); } if (!out2) g_stats.cls("strict_ping_pong_histories"); g_stats.sample_sparse(text, g_stats.evaluations); }
+        if (!rcx::shrinking()) { g_stats.evaluations++; g_stats.cls("histories"); g_stats.cls(std::string("interleaving_style_") + (style == 0 ? "response_first_when_legal" : style == 1 ? "requests_first" : style == 2 ? "random" : "earliest_response")); if (c.auto_destroy) g_stats.cls("auto_destroy"); for (size_t j = 0; j < N; j++) if (withheld[j]) { g_stats.cls("expect_100_continue_body_withheld_after_4xx"); break; } if (N >= 3 && out2) { g_stats.nt(vc::fnv1a(text)); g_stats.cls("n_ge_3_with_outstanding_requests"); } if (!out2) g_stats.cls("strict_ping_pong_histories"); g_stats.sample_sparse(text, g_stats.evaluations); }
         if (!r.first.empty()) { std::string sig = "C04:" + r.first; if (A.is_known(sig)) { if (!rcx::shrinking()) g_stats.attributed[sig]++; return {}; } return rcx::Fail{sig, text, r.second}; }
         return {};
     });
